@@ -40,9 +40,9 @@ func DecodeURL(logger s3log.AuditLogger, mm *metrics.Manager) fiber.Handler {
 			!backend.IsValidId(ctx.Query("versionId")) {
 			return controllers.SendResponse(ctx, s3err.GetAPIError(s3err.ErrInvalidURI), &controllers.MetaOpts{Logger: logger, MetricsMng: mm})
 		}
-		// an object name of nothing but slashes would be resolved to the
-		// bucket directory itself
-		if _, key, found := strings.Cut(strings.TrimPrefix(unescp, "/"), "/"); found && key != "" && strings.Trim(key, "/") == "" {
+		// empty segments ("/bucket//key", "/bucket//") would be resolved to
+		// another object of the bucket, or to the bucket directory itself
+		if backend.HasEmptySegment(strings.TrimPrefix(unescp, "/")) {
 			return controllers.SendResponse(ctx, s3err.GetAPIError(s3err.ErrInvalidURI), &controllers.MetaOpts{Logger: logger, MetricsMng: mm})
 		}
 		ctx.Path(unescp)
